@@ -11,8 +11,11 @@ REPO = os.path.abspath(os.environ.get("VERIF_REPO", "/repo"))
 COQ = os.path.join(VERIF, "coq")
 OCAML = os.path.join(VERIF, "ocaml")
 DRIVER = os.path.join(OCAML, "_build", "driver")
-EVIDENCE = os.path.join(VERIF, "evidence")
-REPLAYS = os.path.join(VERIF, "replays")
+# evidence/ and replays/ describe runs against /repo; a run against another tree (VERIF_REPO: seeded changes,
+# calibration) writes next to them so that it never overwrites what was observed on the repository itself
+_OTHER = os.path.realpath(REPO) != os.path.realpath("/repo")
+EVIDENCE = os.path.join(VERIF, "evidence_other" if _OTHER else "evidence")
+REPLAYS = os.path.join(VERIF, "replays_other" if _OTHER else "replays")
 GUARD = "OPENSQUIRREL_VERIF"
 
 
